@@ -117,7 +117,8 @@ type C17Scenario struct {
 	Platform    string     `json:"platform"`
 	MaxComments int        `json:"max_comments"`
 	ShowDups    bool       `json:"show_dups"`
-	Base        []c17File  `json:"base"` // content of main
+	PerPage     int        `json:"per_page"` // page size of the platform's listings (GitLab paginates discussions)
+	Base        []c17File  `json:"base"`     // content of main
 	Rounds      []c17Round `json:"rounds"`
 }
 
@@ -142,6 +143,7 @@ func drawC17(rt *rapid.T) C17Scenario {
 	sc.Platform = []string{"github", "gitlab"}[rapid.IntRange(0, 1).Draw(rt, "platform")]
 	sc.MaxComments = []int{1, 2, 3, 5, 50}[rapid.IntRange(0, 4).Draw(rt, "max")]
 	sc.ShowDups = rapid.Bool().Draw(rt, "showdups")
+	sc.PerPage = []int{2, 3, 5, 100}[rapid.IntRange(0, 3).Draw(rt, "perpage")]
 	paths := []string{"rules/a.yml", "rules/b.yml", "rules/c.yml"}
 	nf := rapid.IntRange(1, 3).Draw(rt, "nfiles")
 	for i := 0; i < nf; i++ {
@@ -363,6 +365,9 @@ func runC17(t *testing.T, sc C17Scenario, record bool) *detsim.Outcome {
 	cfg.DisableOnlineChecks()
 
 	forge := simforge.New(sc.Platform)
+	if sc.PerPage > 0 {
+		forge.PerPage = sc.PerPage
+	}
 	digest := fnv.New64a()
 	var simNs int64
 	var lastSummary Summary
